@@ -20,6 +20,7 @@ import (
 	"time"
 
 	"github.com/cespare/xxhash/v2"
+	"github.com/gogo/protobuf/types"
 	"github.com/pkg/errors"
 	"github.com/prometheus/prometheus/model/labels"
 	"github.com/prometheus/prometheus/tsdb/chunkenc"
@@ -263,27 +264,39 @@ func buildStores(w map[string]any, pl *payloads, sseed int64) ([]store.Client, [
 			fs.fail = failSpec{kind: vt.Str(fm["kind"]), k: vt.Int(fm["k"])}
 		}
 		fs.msgs = func() []*storepb.SeriesResponse {
-			var series []*storepb.Series
-			for _, fv := range frames {
+			var out []*storepb.SeriesResponse
+			var pending []*storepb.Series // consecutive series frames waiting to be packed
+			flush := func() {
+				for len(pending) > 0 {
+					if batch <= 1 {
+						out = append(out, storepb.NewSeriesResponse(pending[0]))
+						pending = pending[1:]
+						continue
+					}
+					n := min(batch, len(pending))
+					out = append(out, storepb.NewBatchResponse(pending[:n:n]))
+					pending = pending[n:]
+				}
+			}
+			for fi, fv := range frames {
 				fr := vt.Map(fv)
+				switch vt.Str(fr["k"]) {
+				case "h": // a hints message
+					flush()
+					out = append(out, storepb.NewHintsSeriesResponse(&types.Any{TypeUrl: "verif/hints", Value: []byte(fmt.Sprintf("%s#%d", fs.name, fi))}))
+					continue
+				case "w": // a warning message (e.g. forwarded by a querier below)
+					flush()
+					out = append(out, storepb.NewWarnSeriesResponse(errors.Errorf("injected warning %d of %s", fi, fs.name)))
+					continue
+				}
 				s := &storepb.Series{Labels: labelpb.ZLabelsFromPromLabels(lsetOf(fr["ls"]))}
 				for _, cv := range vt.List(fr["chunks"]) {
 					s.Chunks = append(s.Chunks, pl.chunk(vt.Map(cv)))
 				}
-				series = append(series, s)
+				pending = append(pending, s)
 			}
-			var out []*storepb.SeriesResponse
-			if batch <= 1 {
-				for _, s := range series {
-					out = append(out, storepb.NewSeriesResponse(s))
-				}
-				return out
-			}
-			for len(series) > 0 {
-				n := min(batch, len(series))
-				out = append(out, storepb.NewBatchResponse(series[:n:n]))
-				series = series[n:]
-			}
+			flush()
 			return out
 		}
 		fakes = append(fakes, fs)
@@ -301,6 +314,7 @@ type collector struct {
 	ctx      context.Context
 	msgs     [][]*storepb.Series // one entry per series-carrying message
 	warnings []string
+	hints    int
 }
 
 func (c *collector) Context() context.Context { return c.ctx }
@@ -312,6 +326,8 @@ func (c *collector) Send(r *storepb.SeriesResponse) error {
 		c.msgs = append(c.msgs, []*storepb.Series{r.GetSeries()})
 	case r.GetBatch() != nil:
 		c.msgs = append(c.msgs, append([]*storepb.Series(nil), r.GetBatch().Series...))
+	case r.GetHints() != nil:
+		c.hints++
 	}
 	return nil
 }
